@@ -133,7 +133,11 @@ _SAFE_METHODS = {
           "intersection_update", "clear"},
     frozenset: {"copy", "union", "intersection", "difference", "issubset", "issuperset", "isdisjoint"},
     dict: {"get", "keys", "values", "items", "copy", "pop", "update", "setdefault", "popitem", "clear", "fromkeys"},
+    int: {"bit_length", "bit_count", "to_bytes", "conjugate", "as_integer_ratio", "is_integer"},
+    float: {"is_integer", "as_integer_ratio", "hex", "conjugate"},
+    bytes: {"decode", "hex", "startswith", "endswith", "split", "strip", "join", "find", "count", "replace"},
     __import__("collections").Counter: {"most_common", "subtract", "elements", "total"},
+    __import__("collections").deque: {"append", "appendleft", "pop", "popleft", "extend", "extendleft", "clear", "rotate", "count", "index", "remove", "reverse", "copy", "insert", "maxlen"},
     __import__("string").Template: {"substitute", "safe_substitute", "template"},
 }
 
@@ -162,6 +166,12 @@ class MiniEval:
 
     def ev_Attribute(self, n):
         obj = self.ev(n.value)
+        if isinstance(obj, ExcType) and n.attr in ("__name__", "__qualname__"):
+            return obj.raised_as
+        if isinstance(obj, type) and n.attr in ("__name__", "__qualname__"):
+            return obj.__name__
+        if type(obj).__name__ == "SuperProxy":
+            return type(obj).__getattr__(obj, n.attr)  # also for dunder names, which Python would find on the proxy itself
         if isinstance(obj, Model) and getattr(type(obj), "_allow_private", False):
             try:
                 return getattr(obj, n.attr)
@@ -196,6 +206,8 @@ class MiniEval:
             return getattr(obj, n.attr)  # a lark Token (a str with position attributes)
         if callable(obj) and n.attr in ("register", "dispatch", "cache_clear", "cache_info", "__wrapped__", "__name__", "__doc__", "func", "args", "keywords") and hasattr(obj, n.attr):
             return getattr(obj, n.attr)  # attributes of function objects: singledispatch registry, lru_cache controls, partial parts
+        if isinstance(obj, type) and issubclass(obj, Model) and not n.attr.startswith("_") and hasattr(obj, n.attr):
+            return getattr(obj, n.attr)  # class-level API of a model class (alternative constructors such as Lark.open)
         if obj is None:
             raise ModelRaise("AttributeError", f"'NoneType' object has no attribute '{n.attr}'")
         if isinstance(obj, (dict, list, tuple, str, set, frozenset)) and n.attr in ("__getitem__", "__contains__", "__len__", "__eq__", "__ne__", "__iter__", "__le__", "__lt__", "__ge__", "__gt__", "__or__", "__and__", "__sub__") and hasattr(obj, n.attr):
@@ -205,6 +217,9 @@ class MiniEval:
         for ty, names in _SAFE_METHODS.items():
             if obj is ty and n.attr in names:
                 return getattr(ty, n.attr)  # unbound method of a builtin type: map(str.strip, ...), set.union
+        if isinstance(obj, (str, int, float, bool, bytes, list, tuple, set, frozenset, dict)) and not hasattr(obj, n.attr):
+            # CPython's own answer for its own data types
+            raise ModelRaise("AttributeError", f"'{type(obj).__name__}' object has no attribute '{n.attr}'")
         raise Unsupported(f"attribute {n.attr} on {type(obj).__name__}")
 
     def ev_Call(self, n):
@@ -252,7 +267,21 @@ class MiniEval:
                         continue
                     raise Unsupported(f"isinstance against {tname}")
             return isinstance(obj, tuple(types))
-        if isinstance(n.func, ast.Attribute) and n.func.attr == "__init__" and isinstance(n.func.value, ast.Call) and isinstance(n.func.value.func, ast.Name) and n.func.value.func.id == "super":
+        if isinstance(n.func, ast.Name) and n.func.id == "type" and "type" not in self.env and len(n.args) == 1 and not n.keywords:
+            v = self.ev(n.args[0])
+            if isinstance(v, ModelRaise):
+                return ExcType(v.raised_as)  # the class of a caught exception, known by name
+            if type(v).__name__ in ("UserInstance", "EnumMember"):
+                return object.__getattribute__(v, "__dict__")["_uc_class"]
+            if isinstance(v, Model):
+                raise Unsupported(f"type() of a model object {type(v).__name__}")
+            return type(v)
+        if isinstance(n.func, ast.Name) and n.func.id == "super" and not n.args and self.env.get("__class__") is not None:
+            from .userclass import SuperProxy
+
+            return SuperProxy(self.env["__class__"], self.env.get("__super_self__"))
+        if isinstance(n.func, ast.Attribute) and n.func.attr == "__init__" and isinstance(n.func.value, ast.Call) and isinstance(n.func.value.func, ast.Name) and n.func.value.func.id == "super" \
+                and self.env.get("__class__") is None:
             return None  # super().__init__(...) of a library base class: no model state
         if isinstance(n.func, ast.Name) and n.func.id in ("getattr", "hasattr") and n.func.id not in self.env and 2 <= len(n.args) <= 3:
             obj = self.ev(n.args[0])
@@ -308,6 +337,10 @@ class MiniEval:
         except (ValueError, ZeroDivisionError, StopIteration) as e:
             raise ModelRaise(type(e).__name__, str(e))
         except TypeError as e:
+            if e.__traceback__ is not None and e.__traceback__.tb_next is None and str(getattr(f, "__module__", "")).startswith("cgstatic") and not hasattr(f, "_cg_fdef"):
+                # the arguments do not fit the signature of one of the checker's own model functions: the model is incomplete,
+                # not the evaluated code wrong
+                raise Unsupported(f"call {norm(n)[:60]}: the model of the callee does not take these arguments ({e})")
             # e.g. "_".join([Tree(...)]) - a genuine TypeError of the evaluated code
             raise ModelRaise("TypeError", f"{norm(n)[:60]}: {e}")
         except AttributeError as e:
@@ -836,6 +869,10 @@ class BlockInterp:
             missing = [nm for i, nm in enumerate(names) if i >= len(args) and nm not in kwargs and defaults[i] is None]
             if missing:
                 raise Unsupported(f"missing argument(s) {missing} for {fdef.name}")
+            dcls = getattr(closure, "_cg_defining_class", None)
+            if dcls is not None:
+                env["__class__"] = dcls
+                env["__super_self__"] = args[0] if args else None
             sub = BlockInterp(env, on_call=outer.on_call, on_raise=outer.on_raise, max_steps=outer.max_steps)
             sub.me.env[fdef.name] = closure
             if is_gen:
@@ -863,6 +900,29 @@ class BlockInterp:
         closure._cg_fdef = fdef
         closure._cg_interp = outer
         return closure
+
+    def _handler_names(self, x):
+        """Names of the exception classes an `except <x>` clause catches: the class named, or - when <x> is a variable or another
+        expression (`except exc_type:`, `except self.errors:`) - the classes it evaluates to."""
+        nm = norm(x).split(".")[-1]
+        plain = isinstance(x, ast.Name) and x.id not in self.me.env or (isinstance(x, ast.Attribute) and nm[:1].isupper())
+        if plain or nm in _EXC_PARENTS or nm in USER_EXC_PARENT:
+            return [nm]
+        try:
+            v = self.me.ev(x)
+        except Unsupported:
+            return [nm]
+        out = []
+        for c in (v if isinstance(v, (tuple, list)) else [v]):
+            if isinstance(c, type) and issubclass(c, BaseException):
+                out.append(c.__name__)
+            elif type(c).__name__ in ("UserClass", "EnumClass"):
+                out.append(c._uc_name)
+            elif isinstance(c, str):
+                out.append(c)
+            else:
+                raise Unsupported(f"except clause over {norm(x)[:40]}")
+        return out
 
     def _run_guarded(self, tr):
         """The body of a try statement; when the enclosing generator is closed while suspended in it, `finally` still runs."""
@@ -994,7 +1054,16 @@ class BlockInterp:
             load = ast.copy_location(type(st.target)(**{f: getattr(st.target, f) for f in st.target._fields if f != "ctx"}, ctx=ast.Load()), st.target)
             cur = self.me.ev(load)
             v = self.me.ev(st.value)
-            if isinstance(cur, list) and isinstance(st.op, ast.Add):
+            import operator as _op
+
+            inplace = {ast.Add: _op.iadd, ast.Sub: _op.isub, ast.BitOr: _op.ior, ast.BitAnd: _op.iand, ast.BitXor: _op.ixor, ast.Mult: _op.imul}.get(type(st.op))
+            if inplace is not None and isinstance(cur, (list, set, dict)) and not isinstance(v, Model):
+                # CPython's own in-place operators: lists, sets and dicts (`attrs |= {...}`) are modified in place, every alias sees it
+                try:
+                    new = inplace(cur, v)
+                except TypeError as e:
+                    raise ModelRaise("TypeError", f"{norm(st)[:60]}: {e}")
+            elif isinstance(cur, list) and isinstance(st.op, ast.Add):
                 cur.extend(v)  # in-place list extension keeps aliases, like Python
                 new = cur
             elif isinstance(cur, set) and isinstance(st.op, (ast.BitOr, ast.BitAnd, ast.Sub)):
@@ -1101,10 +1170,10 @@ class BlockInterp:
                 for h in st.handlers:
                     if h.type is None:
                         names = None
-                    elif isinstance(h.type, ast.Tuple):
-                        names = [norm(x).split(".")[-1] for x in h.type.elts]
                     else:
-                        names = [norm(h.type).split(".")[-1]]
+                        names = []
+                        for x in (h.type.elts if isinstance(h.type, ast.Tuple) else [h.type]):
+                            names += self._handler_names(x)
                     if names is None or any(exception_matches(exc.raised_as, nm) for nm in names):
                         if h.name:
                             self.me.env[h.name] = exc
@@ -1197,7 +1266,16 @@ class BlockInterp:
             src = self.me.ev(st.iter)
             # iterate lazily (itertools.count() ...) but over a snapshot of sized containers (mutation during iteration
             # of a list/set/dict would be an error in CPython for set/dict; the package never relies on it)
-            it = list(src) if isinstance(src, (list, tuple, set, frozenset, dict, str)) else iter(src)
+            if isinstance(src, list):
+                # a list is walked by position, live: items appended by the loop body are visited too (work lists)
+                def _live(lst):
+                    i_ = 0
+                    while i_ < len(lst):
+                        yield lst[i_]
+                        i_ += 1
+                it = _live(src)
+            else:
+                it = list(src) if isinstance(src, (tuple, set, frozenset, dict, str)) else iter(src)
             n_iter = 0
             for x in it:
                 n_iter += 1
